@@ -50,7 +50,7 @@ theorem encode_9212 (fuel : Nat) (p : model_P0x9212) (hf : p.P0x9212RetransmitPa
     model_P0x9212_Encode fuel p = X.ok ([p.FileNameLen] ++ p.FileName ++ [p.FileType, p.UploadResult, p.RetransmitPacketNumber] ++
       p.P0x9212RetransmitPacketList.flatMap enc9212) := by
   unfold model_P0x9212_Encode
-  have hm : make (1 : Int) = X.ok [0] := rfl
+  have hm : makeCap (1 : Int) (10 : Int) = X.ok [0] := rfl
   have hs : setIdx [(0 : UInt8)] (0 : Int) p.FileNameLen = X.ok [p.FileNameLen] := rfl
   simp only [hm, X.bind_ok, hs]
   rw [enc_loop p _ fuel 0 _ 0 rfl (by omega) (by omega)]
